@@ -460,6 +460,18 @@ def run(case):
         for q, mm in enumerate(real):
             if not out.check(sorted(mm.df.columns) == sorted(C) and len(mm.df.columns) == 20, "pool:columns", f"step {step} list {q}"):
                 return out
+        # ... and holds exactly the rows its own history gives it: an operation on one list of the pool (a derived piece, the
+        # list it was cut from) must not reach any other
+        for q, mm in enumerate(real):
+            if q != i and not same_rows(out, mm.df, model[q], "pool:other_list_changed_by", step, order=False):
+                return out
     out.label(f"len:{len(case['ops'])}", *(f"op:{k}" for k in kinds))
     out.nontrivial = len(case["ops"]) >= 2 and len(kinds) >= 2 and removed and renumbered
     return out
+
+
+# rejected calls that run before every case (vlib/faults.py): nothing they leave behind - module state, library options,
+# stray files - may make the valid calls of the case violate the statement
+from vlib import faults as _faults  # noqa: E402
+
+fault_calls = _faults.for_property(ID)
